@@ -103,7 +103,12 @@ func goMapDefineOwnProperty(obj *object, name string, descriptor property, throw
 		// Nothing can be stored in a nil map.
 		return obj.runtime.typeErrorResult(throw)
 	}
-	goObj.value.SetMapIndex(goObj.toKey(name), goObj.toValue(value))
+	key := goObj.toKey(name)
+	if !obj.extensible && !goObj.value.MapIndex(key).IsValid() {
+		// A new key, and the object may not gain properties.
+		return obj.runtime.typeErrorResult(throw)
+	}
+	goObj.value.SetMapIndex(key, goObj.toValue(value))
 	return true
 }
 
